@@ -381,9 +381,9 @@ func checkPlain(pc PlainCase) (key, msg string, out uint64) {
 			}
 		}
 		return "", "", core.Hash64(first)
-	case "purity", "purity-nodates", "purity-emptymeta", "purity-nometa":
+	case "purity", "purity-nodates", "purity-emptymeta", "purity-nometa", "purity-roomy":
 		sp := pc.Spec
-		if pc.Kind != "purity" {
+		if pc.Kind != "purity" && pc.Kind != "purity-roomy" {
 			sp.Dates = false
 		}
 		s := sp.Build()
@@ -409,6 +409,10 @@ func checkPlain(pc PlainCase) (key, msg string, out uint64) {
 		}
 		many = append(many, astisub.Line{Items: []astisub.LineItem{{Text: strings.Repeat("w", 300)}}})
 		s.Items = append(s.Items, &astisub.Item{StartAt: 9 * time.Second, EndAt: 10 * time.Second, Lines: many})
+		if pc.Kind == "purity-roomy" {
+			// every slice of the list has spare capacity: memory of the caller that an append would write into
+			purity.Roomy(s)
+		}
 		before := purity.Snapshot(s)
 		var b bytes.Buffer
 		corpus.Write(pc.Writer, s, &b)
@@ -562,6 +566,7 @@ func plainRun(c *core.Ctx) {
 	for _, sp := range specs(c.Tier) {
 		for _, w := range corpus.WriteFormats {
 			do(PlainCase{Kind: "purity", Spec: sp, Writer: w})
+			do(PlainCase{Kind: "purity-roomy", Spec: sp, Writer: w})
 		}
 	}
 	// metadata shapes: no dates (the STL writer takes them from the clock - it must not store them), no metadata
